@@ -22,6 +22,11 @@ def tools():
     return c2m, model
 
 
+def tool_fn():
+    """extracted PpExpandFn (function-like macro expansion) and PpCond (conditional directives) models"""
+    return vlib.ocaml_build('c09fn', 'Extract_C09fn', ['c09fx'], 'driver_c09fn.ml')
+
+
 class Scratch:
     def __enter__(self):
         self.d = tempfile.mkdtemp(prefix='c09-', dir='/var/tmp')
@@ -266,9 +271,14 @@ def compare_cases(c2m, cases, d, tag):
         for c in cases:
             res.update(compare_cases(c2m, [c], d, tag))
         return res
-    if split['c2m'] is None or sorted(split['c2m']) != sorted(want):
+    if split['c2m'] is None or sorted(split['c2m']) != sorted(want) or outs['c2m'][0] != 0:
+        # (a text both reference preprocessors accept must be accepted by c2m too: exit status 0)
         if len(cases) == 1:
             toks = outs['c2m'][1]
+            if split['c2m'] is not None and cases[0][0] in split['c2m']:
+                toks = list(split['c2m'][cases[0][0]])
+            if outs['c2m'][0] != 0:
+                toks = toks + ['<c2m -E exit status %d: %s>' % (outs['c2m'][0], outs['c2m'][2].strip().split('\n')[0][:120])]
             return {cases[0][0]: ('diff', toks, split['gcc'][cases[0][0]])}
         for c in cases:
             res.update(compare_cases(c2m, [c], d, tag))
@@ -307,15 +317,23 @@ def shrink_pp_case(c2m, text, d):
     return '\n'.join(lines) + '\n'
 
 
-def run_expand(chk, c2m, d, quick):
+def strip_marker(toks):
+    return toks[1:] if toks[:1] == [';'] else toks      # the `;` of the case marker line
+
+
+def run_expand(chk, c2m, model_fn, d, quick):
     cases = []
     feats = {}
+    queries = {}       # case index -> (query line, kind, aux)
     cp = os.path.join(vlib.VERIF, 'corpus', 'c09_pp')
     idx = 0
     if os.path.isdir(cp):
         for f in sorted(os.listdir(cp)):
             cases.append((idx, open(os.path.join(cp, f)).read()))
             feats[idx] = ['corpus:' + f]
+            q = M.model_query(cases[-1][1])
+            if q is not None:
+                queries[idx] = (q, 'fn', None)
             idx += 1
     nmac, ncond = (500, 150) if quick else (8000, 2000)
     for k in range(nmac):
@@ -323,21 +341,39 @@ def run_expand(chk, c2m, d, quick):
         text, fs = M.gen_macro_case(rng, idx)
         cases.append((idx, text))
         feats[idx] = ['macro'] + fs
+        q = M.model_query(text)
+        if q is not None:
+            queries[idx] = (q, 'fn', None)
         idx += 1
     for k in range(ncond):
         rng = chk.rng('cond%d' % k)
-        text, fs = M.gen_cond_case(rng, idx)
-        cases.append((idx, text))
-        feats[idx] = ['cond'] + fs
+        tree, names, px, fs = M.gen_cond_tree(rng, idx)
+        cases.append((idx, M.cond_text(tree, names, px)))
+        feats[idx] = ['cond'] + sorted(fs)
+        queries[idx] = (M.cond_query(tree), 'cond', (names, px))
         idx += 1
     texts = dict(cases)
+    qi = sorted(queries)
+    rc, answers, err = vlib.run_lines(model_fn, [queries[i][0] for i in qi], timeout=900)
+    if rc != 0 or len(answers) != len(qi):
+        raise vlib.BuildError('driver_c09fn failed: rc=%d %s' % (rc, err[-400:]))
+    answers = dict(zip(qi, answers))
     results = {}
     B = 60
     for off in range(0, len(cases), B):
         results.update(compare_cases(c2m, cases[off:off + B], d, 'pp%d' % off))
     bad = []
+    model_breaks = []
     for i, (st, c, g) in sorted(results.items()):
         kind = feats[i][0]
+        if st == 'diff' and c and c[-1].startswith('<c2m -E exit status') and answers.get(i, '').startswith('err') \
+                and M.squash(c[:-1]) == M.squash(g):
+            # c2m rejects, and the model of its code says it must: a constraint violation (e.g. no argument for
+            # `...`, C11 6.10.3p4) that gcc and clang accept as an extension; outside the property's quantifier
+            st = 'unspecified'
+            results[i] = (st, c, g)
+            chk.dist('pp_outcome', kind.split(':')[0] + ':rejected-by-c2m-and-model(extension of gcc/clang)')
+            continue
         chk.dist('pp_outcome', kind.split(':')[0] + ':' + st)
         if st == 'unspecified':
             continue
@@ -346,6 +382,28 @@ def run_expand(chk, c2m, d, quick):
             chk.dist('pp_features', f)
         if st == 'diff':
             bad.append(i)
+        # the Coq models against c2m -E, token for token (up to c2m's unspaced printing of adjacent tokens)
+        if i in answers:
+            q, mk, aux = queries[i]
+            if mk == 'fn':
+                want = M.model_tokens(answers[i])
+                tag = 'fn-model:' + (answers[i].split()[0] if want is None else 'defined')
+            else:
+                want = M.cond_expected(answers[i], *aux)
+                tag = 'cond-model:' + ('error' if want is None else 'defined')
+            if want is None:
+                # the model leaves its domain (c2mir reports an error, an unsupported ## result): nothing to compare,
+                # except that running out of fuel or a driver error is a broken tie
+                if not answers[i].startswith('err'):
+                    model_breaks.append((texts[i], answers[i], c))
+            elif M.squash(want) != M.squash(strip_marker(c)):
+                tag += ':DISAGREES'
+                model_breaks.append((texts[i], ' '.join(want), ' '.join(strip_marker(c))))
+            elif want != strip_marker(c):
+                tag += ':agree-modulo-spacing'
+            else:
+                tag += ':agree'
+            chk.dist('pp_models', tag)
     for i in [c[0] for c in cases if c[0] in results and results[c[0]][0] == 'ok'][:3]:
         chk.sample('pp case: ' + texts[i].replace('\n', ' \\n ')[:300])
     seen = set()
@@ -359,7 +417,7 @@ def run_expand(chk, c2m, d, quick):
                     dict(kind='pp', text=small, original=texts[i], c2m=' '.join(r[1]), gcc=' '.join(r[2])),
                     'preprocessing of %s gives tokens `%s` under c2m -E but `%s` under gcc/clang -E'
                     % (json.dumps(small)[:400], ' '.join(r[1])[:200], ' '.join(r[2])[:200]))
-    return len(results), bad
+    return len(results), bad, model_breaks
 
 
 # ------------------------------------------------------------------ PpExpand model vs c2m (object-like macros)
@@ -431,8 +489,11 @@ def run(chk):
     lim = tr_c07_limits.check()
     r = chk.prove()
     c2m, model = tools()
+    model_fn = tool_fn()
     chk.cov['trusted_base'] += ['extraction: ExtrOcamlBasic only, no Extract Constant/Inductive of our own',
-                                'ocaml/driver_c09.ml (parse + print only), tools/gen_c09_if.py (renders expressions)',
+                                'ocaml/driver_c09.ml, ocaml/driver_c09fn.ml (parse + print only), tools/gen_c09_if.py (renders expressions)',
+                                'tools/gen_c09_macro.py lex_c2m/model_query: the pp-token lexer is NOT modelled in Coq; the text is cut into tokens '
+                                '(white space = one token per run) by this Python lexer before it reaches PpExpandFn',
                                 'gcc -E as the reference C11 preprocessor (cross-checked against the Coq C11If specification)',
                                 'tools/tr_c07_limits.py: coq/C07/Limits.v re-checked against c2mir/x86_64/cx86_64.h']
     with Scratch() as d:
@@ -440,14 +501,16 @@ def run(chk):
         shutil.copy(c2m, mine)
         c2m = mine
         n_if, if_findings, if_model_breaks = run_if(chk, c2m, model, d, quick)
-        n_pp, pp_bad = run_expand(chk, c2m, d, quick)
+        n_pp, pp_bad, fn_breaks = run_expand(chk, c2m, model_fn, d, quick)
         n_obj, obj_breaks = run_objlike(chk, c2m, model, d, quick)
     chk.cov['rule'] = ('#if: each generated controlling expression to which the C11 model gives a value is run as three '
                        'directives (group selection; (e)==predicted value; 0*(e)-1<0 for the type) under c2m -E and gcc -E '
                        'and compared with the extracted PpIf and C11If models; non-trivial = at least 3 nodes; distinct by text.  '
                        'pp: seeded macro sets + uses and nested conditional structures, token stream of c2m -E vs gcc -E -P, '
-                       'counted only where gcc and clang agree (otherwise C11 leaves the nesting unspecified); non-trivial = at least 3 output tokens')
-    tie_broken = bool(lim) or not r['ok'] or bool(if_model_breaks) or bool(obj_breaks)
+                       'counted only where gcc and clang agree (otherwise C11 leaves the nesting unspecified); non-trivial = at least 3 output tokens; '
+                       'on the same texts the extracted PpExpandFn (function-like expansion) and PpCond (conditional stack) models must produce '
+                       'the token stream of c2m -E (pp_models distribution), and c2m -E must exit 0 wherever gcc and clang do')
+    tie_broken = bool(lim) or not r['ok'] or bool(if_model_breaks) or bool(obj_breaks) or bool(fn_breaks)
     if tie_broken and not chk.violations:
         if lim:
             r = dict(r)
@@ -455,6 +518,9 @@ def run(chk):
         if obj_breaks:
             r = dict(r)
             r['log'] += '\nPpExpand model disagrees with c2m -E on: %r' % (obj_breaks[:2],)
+        if fn_breaks:
+            r = dict(r)
+            r['log'] += '\nPpExpandFn/PpCond model disagrees with c2m -E on (text, model, c2m): %r' % (fn_breaks[:2],)
         chk.proof_broken(r, searched='%d #if expressions, %d macro/conditional cases and %d object-like tables agreed between c2m, gcc and the models' % (n_if, n_pp, n_obj))
 
 
